@@ -604,7 +604,11 @@ func (h *handler1) handleSubscribe(ctx context.Context, snSubscribe *snPkts1.Sub
 		topic = string(snSubscribe.TopicName)
 		if !hasWildcard(topic) {
 			var err error
-			topicID, err = h.newTopicID()
+			// A topic name keeps the topic ID it already has in this session:
+			// allocating a second ID for the same name would leave the gateway
+			// free to use either one while the client remembers only the
+			// last one it was told.
+			topicID, err = h.registerTopic(topic)
 			if err != nil {
 				snSuback := snPkts1.NewSuback(0, snPkts1.RC_INVALID_TOPIC_ID, 0)
 				// We are kind of misusing the "invalid topic ID" return code here.
@@ -618,7 +622,7 @@ func (h *handler1) handleSubscribe(ctx context.Context, snSubscribe *snPkts1.Sub
 			// The Server is permitted to start sending PUBLISH packets matching
 			// the Subscription before the Server sends the SUBACK Packet.
 			// [MQTT v.5.0, chapter 3.8.4 SUBSCRIBE Actions]
-			h.registeredTopics.Store(topicID, topic)
+			// (registerTopic has stored the mapping.)
 		}
 		// topicID remains zero if client is subscribing to a wildcard topic.
 	case snPkts1.TIT_PREDEFINED:
